@@ -74,3 +74,9 @@ q, t = rapid_jobs(qshards=4, tshards=16, tscale=10)
 add("C02", "c02", q, t)
 ASSUMPTIONS["C02"] = ["tower heights are injected by replacing the list's private *rand.Rand through reflection; if that field disappears the check falls back to the list's own randomness and says so (class FALLBACK)",
                       "the very first insertion into a zero-value list draws its height from the list's own time-seeded source (lazy Init re-creates it); all later heights are case-controlled"]
+
+# ---- C03 roaring bitmap / C16 bit sets ------------------------------------------
+q, t = rapid_jobs(qshards=4, tshards=16, tscale=8)
+add("C03", "c03", q, t)
+q, t = rapid_jobs(qshards=4, tshards=16, tscale=10)
+add("C16", "c16", q, t)
